@@ -13,6 +13,22 @@ CLAIMS = {
              'numbering triples, table addressing formulas, type->class dispatch and link validation, name-map/enumeration '
              'agreement, e_ident detection. Not decided: that struct.unpack decodes bytes as documented; section name '
              'strings (C02). Trusted: CPython ast, glibc elf.h, spec rows in /verif/spec.'),
+    'C02': dict(
+        technique='layout interpretation vs glibc + per-path stream-operation normal forms + truth-table comparison of '
+                  'containment conditions with the binutils rule',
+        level=LEVEL,
+        note='Decides: Elf_Chdr layout per class, Section constructor wiring, the three data paths (positions, lengths, '
+             'size check dominating the compressed return), Segment/interp/string reads, address_offsets condition and '
+             'offset, section_in_segment == ELF_SECTION_IN_SEGMENT_1(strict) over all atom assignments. Not decided: zlib '
+             'inflation, the bytes parse_cstring_from_stream returns. Trusted: glibc elf.h, the transcribed binutils rule.'),
+    'C03': dict(
+        technique='layout interpretation vs glibc/gABI rows + bit-field placement vs registry macros + accessor normal forms + '
+                  'stream-cursor typestate of the hash walks',
+        level=LEVEL,
+        note='Decides: Elf_Sym/syminfo/hash layouts, st_info/st_other bit placement, strides/counts, name wiring, name-map '
+             'construction, GNU/SysV hash position formulas and walk conditions, H-CUR on accessors and walks. Not decided: '
+             'hash values (loops over bytes), lookup completeness as a relation over all tables. Trusted: glibc elf.h, '
+             'gABI/GNU-hash rows, receiver hints of the call resolution.'),
     'C17': dict(
         technique='constant folding of table modules + exhaustive comparison with vendored registries',
         level=LEVEL,
